@@ -587,7 +587,8 @@ def r02_11(ctx):
             if g.startswith("p1 matches "):
                 modes.update(a.strip() for a in g[len("p1 matches "):].split("|"))
     n = rowcmp.compare(cells, modes, lambda k, d: ctx.ob("R02.11", k, True, d),
-                       lambda k, kind, d: ctx.ob("R02.11", k + "/" + kind, False, d, "html5ever tree_builder rules.rs step vs ref/whatwg_rows.py"))
+                       lambda k, kind, d: ctx.ob("R02.11", k + "/" + kind, False, d, "html5ever tree_builder rules.rs step vs ref/whatwg_rows.py"),
+                       summaries=nf_common.crate_summaries(ctx, "html5ever"))
     ctx.floor("R02.11", "row-situations-compared", n, 700)
 
 
